@@ -27,7 +27,7 @@ type Profile struct {
 const containerWidth = 1 << 16
 
 // ProfileNames lists the available block shapes.
-var ProfileNames = []string{"single", "array", "thresh", "bitmap", "runs", "mixed", "full"}
+var ProfileNames = []string{"single", "array", "thresh", "bitmap", "runs", "mixed", "full", "halves"}
 
 func comb(lo, n, stride int) []uint64 {
 	out := make([]uint64, n)
@@ -83,6 +83,11 @@ func MakeProfile(name string, shard uint64, seed int64) *Profile {
 	case "mixed":
 		a = [2][]uint64{{7}, interval(100, 5200)}
 		b = [2][]uint64{comb(1, 4400, 3), {containerWidth - 1}}
+	case "halves": // columns 0 and 1 are the two halves of the first container: a payload naming
+		// both is a completely full container landing on a half-filled one; columns 2, 3 stay small
+		a = [2][]uint64{interval(0, 32767), interval(32768, 65535)}
+		b = [2][]uint64{{0}, {containerWidth - 1}}
+		p.Big = true
 	case "full": // blocks partition the containers: N = 65536
 		a = [2][]uint64{interval(0, 32767), interval(32768, 65535)}
 		b = [2][]uint64{interval(0, 40000), interval(40001, 65535)}
